@@ -6,6 +6,7 @@ import I2N.Lemmas.TravGlobalN
 import I2N.Lemmas.TravGlobalR
 import I2N.Lemmas.TravFair
 import I2N.Model.TravMon
+import I2N.Lemmas.GenReady
 /-!
 # C02 — Traversal terminates and every selected test gets a definite result  (partial by design)
 
@@ -1254,5 +1255,113 @@ example := backoff_sleeps_a_tenth gDuo (edgeSymB_sound (by decide)) 2 []
         ⟨none, 0⟩ 82).1.wd 1).pc <;> rw [hpc] at h <;> first | rfl | cases h)
 example : (resume gDuo (I2N.Trav.GlobalN.runStepsN gDuo (initState gDuo 2 []) (runOfGDuo.take 1)) 1
     ⟨none, 0⟩ 82).2.getLast? = some (Event.sleep "net2" 10) := by decide +kernel
+
+end I2N.Props.C02
+
+/-! ## Translator tie: readiness, drops and picks are the Python source (`harness/pygen_pxready.py`)
+
+`Extracted/GenReady.lean` is regenerated on every run from the CURRENT source of `TestNode.is_setup_ready`,
+`is_cleanup_ready`, `drop_parent`, `drop_child`, `pick_parent`, `pick_child` (avocado_i2n/cartgraph/node.py) by the
+translator `harness/pygen.py`.  The theorems below state that the generated definitions ARE the hand written model
+functions, for every graph, state, node and worker (no hypotheses).  A change of the Python changes the generated text
+and these proofs (or the closed forms in `Lemmas/GenReady.lean`) stop compiling.  Atoms (trusted): a node / worker is its
+index; `self.setup_nodes` = the parents in dictionary order; `node.is_flat()` = `Node.flat`; `worker.id in
+node.params["name"]` = `Graph.idIn`; `worker.id in <register>.get_workers(node)` = membership in `regWorkers` of the
+register of the class of `self` under the key of the class of `node`; `<register>.register(node, worker)` = `regAdd`;
+`<register>.get_counters()` = `regTotal`; `prefix_priority` = comparison of the exported ranks; `sorted(key=…)` = the
+stable insertion sort of the model by that key. -/
+namespace I2N.Props.C02
+open I2N.Trav
+open I2N.Extracted.GenReady
+open I2N.GenReady
+
+/-- **The hand written `isSetupReady` is the Python source of `is_setup_ready`** (the loop over the parents, the
+`continue` for composite parents of other workers, `return False` at the first parent the worker has not dropped,
+`return True` otherwise), for every graph, state, node and worker.  No hypotheses. -/
+theorem isSetupReady_matches_source (g : Graph) (s : State) (n w : Nat) :
+    isSetupReady g s n w =
+      genIsSetupReady ((g.node n).setup.map (·.1)) (fun p => (g.node p).flat) (fun p => g.idIn w p)
+        (fun p => (regWorkers (s.cr (g.node n).cls).droppedSetup (some (g.node p).cls)).contains w) := by
+  rw [genIsSetupReady_all, isSetupReady, List.all_map]
+  rfl
+
+/-- the same for `isCleanupReady` / `is_cleanup_ready`.  No hypotheses. -/
+theorem isCleanupReady_matches_source (g : Graph) (s : State) (n w : Nat) :
+    isCleanupReady g s n w =
+      genIsCleanupReady ((g.node n).cleanup.map (·.1)) (fun p => (g.node p).flat) (fun p => g.idIn w p)
+        (fun p => (regWorkers (s.cr (g.node n).cls).droppedCleanup (some (g.node p).cls)).contains w) := by
+  rw [genIsCleanupReady_all, isCleanupReady, List.all_map]
+  rfl
+
+/-- the generated readiness computes: a composite parent of another worker is skipped, a flat parent is not -/
+example : genIsSetupReady [1, 2] (fun _ => false) (fun p => p == 1) (fun _ => false) = false ∧
+    genIsSetupReady [1, 2] (fun _ => false) (fun p => p == 1) (fun p => p == 1) = true ∧
+    genIsSetupReady [1, 2] (fun p => p == 2) (fun p => p == 1) (fun p => p == 1) = false ∧
+    genIsCleanupReady [] (fun _ => false) (fun _ => false) (fun _ => false) = true := by decide
+
+/-- **The hand written `dropParent` is the Python source of `drop_parent`** on its non-raising path: the model's new
+state is the old one with the registers of the child's class replaced by what the generated function leaves
+(`execRegs` = run the generated action on the registers and keep the registers; the adapter is needed because the model
+has no raising path — see `drop_raises_for_non_neighbour`).  For every graph, state, nodes and worker; no hypotheses. -/
+theorem dropParent_matches_source (g : Graph) (s : State) (child parent w : Nat) :
+    dropParent g s child parent w =
+      s.setCr (g.node child).cls (execRegs (genDropParent true ((g.node parent).cls, w))) := rfl
+
+/-- the same for `dropChild` / `drop_child` -/
+theorem dropChild_matches_source (g : Graph) (s : State) (parent child w : Nat) :
+    dropChild g s parent child w =
+      s.setCr (g.node parent).cls (execRegs (genDropChild true ((g.node child).cls, w))) := rfl
+
+/-- complete description of the generated drops, for every flag, key and register record (result AND registers; the
+exception layer of `RegM` is outside the state, so a mark made before a `raise` would be seen): not a neighbour ⇒
+`ValueError` and NOTHING is registered (a path the model does not have: its callers drop the node they came from); a
+neighbour ⇒ exactly one `regAdd` on the dropped register of that side, the three other registers untouched -/
+theorem drop_raises_for_non_neighbour (b : Bool) (key : Nat × Nat) (r : ClassRegs) :
+    (genDropParent b key).run.run r =
+      (if b then (.ok (), { r with droppedSetup := regAdd r.droppedSetup key }) else (.error "ValueError", r)) ∧
+    (genDropChild b key).run.run r =
+      (if b then (.ok (), { r with droppedCleanup := regAdd r.droppedCleanup key }) else (.error "ValueError", r)) := by
+  cases b <;> exact ⟨rfl, rfl⟩
+
+/-- the order of the model's single sort is the lexicographic combination of the three Python sort keys -/
+theorem pickKey_order (g : Graph) (s : State) (parent : Bool) :
+    (fun a b => keyLe (pickKey g s parent a) (pickKey g s parent b)) =
+      I2N.PyGenSort.lexLe (flatKey (fun p => (g.node p).flat))
+        (I2N.PyGenSort.lexLe (fun p => regTotal (if parent then (s.cr (g.node p).cls).pickedByCleanup
+            else (s.cr (g.node p).cls).pickedBySetup))
+          (I2N.PyGenSort.keyOrd (fun p => (g.node p).rank))) := by
+  funext a b
+  simp only [keyLe, pickKey, I2N.PyGenSort.lexLe, I2N.PyGenSort.keyOrd, flatKey]
+  cases parent <;> rfl
+
+/-- **The hand written `pickParent` is the Python source of `pick_parent`**: the two candidate filters, the
+`RuntimeError` for an exhausted node, the three stable sorts (prefix priority, then picks so far, then flat first; the
+model sorts once with the lexicographic key — `Lemmas/PyGenSort.stableSort_comp`), the first element, and the one
+`register` on the picked-by-cleanup register of the class of the PICKED node — same result, same new state, same
+exception (and then an UNCHANGED state), for every graph, state, node and worker.  No hypotheses. -/
+theorem pickParent_matches_source (g : Graph) (s : State) (n w : Nat) :
+    (genPickParent g ((g.node n).setup.map (·.1)) (fun p => (g.node p).flat) (fun p => g.idIn w p)
+        (fun p => (regWorkers (s.cr (g.node n).cls).droppedSetup (some (g.node p).cls)).contains w)
+        (fun p => regTotal (s.cr (g.node p).cls).pickedByCleanup) (fun p => (g.node p).rank)
+        ((g.node n).cls, w)).run.run s =
+      (match pickParent g s n w with
+        | some r => (.ok r.1, r.2)
+        | none => (.error "RuntimeError", s)) := by
+  rw [genPickParent_run, pickParent, pickKey_order g s true]
+  simp only [relevant, if_true]
+  cases stableSort _ _ <;> rfl
+
+/-- the same for `pickChild` / `pick_child` (picked-by-setup register) -/
+theorem pickChild_matches_source (g : Graph) (s : State) (n w : Nat) :
+    (genPickChild g ((g.node n).cleanup.map (·.1)) (fun p => (g.node p).flat) (fun p => g.idIn w p)
+        (fun p => (regWorkers (s.cr (g.node n).cls).droppedCleanup (some (g.node p).cls)).contains w)
+        (fun p => regTotal (s.cr (g.node p).cls).pickedBySetup) (fun p => (g.node p).rank)
+        ((g.node n).cls, w)).run.run s =
+      (match pickChild g s n w with
+        | some r => (.ok r.1, r.2)
+        | none => (.error "RuntimeError", s)) := by
+  rw [genPickChild_run, pickChild, pickKey_order g s false]
+  simp only [relevant, Bool.false_eq_true, if_false]
+  cases stableSort _ _ <;> rfl
 
 end I2N.Props.C02
